@@ -244,7 +244,9 @@ def mutant_jobs(prop, repo):
     jobs = []
     # whole-tree twin: every module re-emitted from its syntax tree (comments gone, quotes, line breaks and parentheses
     # normalised) - nothing a rule looks at may depend on layout
-    jobs.append(("twin", "reformat:whole-tree", ("*", "ast-roundtrip")))
+    jobs.append(("twin", "reformat:whole-tree", ("*", "reformat")))
+    # whole-tree twin: every local variable of every function renamed
+    jobs.append(("twin", "rename-locals:whole-tree", ("*", "rename_locals")))
     for kind, jid, rule_id, rel, src in generate(model):
         try:
             ast.parse(src)
